@@ -68,3 +68,58 @@ PROPS["C10"] = dict(
         Stage("c10_chains", kind="miri", args=["--n", "54"], miri_flags=MIRI_SERIAL, timeout=(900, 1800)),
     ],
 )
+
+PROPS["C11"] = dict(
+    level="exploration",
+    rule="constants of f62/f64/f128: Miller-Rabin on the code's modulus bytes, two-adicity by trial division, generator "
+         "order against the verified factorisation of p-1, EVERY root-of-unity order 1..two-adicity (exhaustive), code's "
+         "phi^d equals the documented reduction polynomial and that polynomial has no root (gcd(x^p-x,f)), Frobenius = "
+         "p-th power on sampled/boundary elements; decoders: values {0,1,p-1,p,p+1,2p-1,2p,MAX,..}+random in every "
+         "coefficient position through TryFrom<&[u8]>, read_from_bytes, from_random_bytes, TryFrom<u64/u128>, "
+         "from_bytes_with_padding, bytes_as_elements, From<u8/u16/u32>, reverse conversions; distinct = distinct inputs",
+    assumptions=["factorisations of p-1 embedded in refarith.rs are re-verified at start (product and primality)",
+                 "TWO_ADIC_ROOT_OF_UNITY == GENERATOR^k is recorded but not judged (f64 deliberately differs; the property asks for exact order only)"],
+    floor=500,
+    exhaustive=False,
+    stages=[
+        Stage("c11", variant="rel"),
+        Stage("c11", variant="chk", args=["--n", "10"]),
+        Stage("c11", kind="miri", args=["--n", "1"], miri_flags=MIRI_SERIAL, timeout=(900, 1800), tiers=("thorough",)),
+    ],
+)
+
+PROPS["C13"] = dict(
+    level="exploration",
+    rule="random polynomial pairs (length 0..40; all-zero, leading-zero, sparse, one-leading-zero modes; representation-"
+         "biased coefficients; x = 0 among interpolation points; duplicate roots) over 7 element types; eval, eval_many, "
+         "interpolate (+trimmed), interpolate_batch<2,4,8>, add, sub, mul, mul_by_scalar, div (+exact), syn_div, "
+         "syn_div_in_place, syn_div_roots_in_place, degree_of, remove_leading_zeros, poly_from_roots vs reference "
+         "polynomial arithmetic; distinct = distinct input pairs",
+    assumptions=["documented preconditions are respected by the generator (div: non-zero divisor of degree <= dividend; "
+                 "syn_div: a >= 1, b != 0, len > a; mul: both operands non-empty)",
+                 "results are compared as polynomials (trailing zero coefficients ignored) and by documented length where one is documented"],
+    floor=500,
+    stages=[
+        Stage("c13", variant="rel"),
+        Stage("c13", variant="chk", args=["--n", "1500"]),
+        Stage("c13", kind="miri", args=["--n", "21"], miri_flags=MIRI_SERIAL, timeout=(900, 1800)),
+    ],
+)
+
+C14_THREADS_QUICK = (1, 3, 16)
+C14_THREADS_ALL = (1, 2, 3, 5, 8, 16)
+PROPS["C14"] = dict(
+    level="exploration",
+    rule="lengths 0..70 exhaustively plus the neighbourhood of every parallel batch boundary (1024*P, 1025*P, 1500*P, 2048*P "
+         "+-2, +0/1/P-1/P/P+1; P = thread count rounded up to a power of two) for batch_inversion (zeros at batch "
+         "starts / ends / everywhere / random), get_power_series(_with_offset), add_in_place, mul_acc over f64, f64^2, f62, "
+         "f128; group/flatten/flatten_vector (with spare capacity)/transpose with N in {2,3,4,8}; serial build, "
+         "overflow-check build, concurrent build at thread counts 1,3,16 (thorough 1,2,3,5,8,16), TSan, Miri; "
+         "distinct = (field, length)",
+    assumptions=["which lengths take the parallel path is computed from the thread count (len/P >= 1024) and reported as a counter"],
+    floor=100,
+    stages=[Stage("c14", variant="rel"), Stage("c14", variant="chk", args=["--maxlen", "3000"])]
+           + [Stage("c14", variant="par", threads=t, tiers=("quick", "thorough") if t in C14_THREADS_QUICK else ("thorough",)) for t in C14_THREADS_ALL]
+           + [Stage("c14", kind="tsan", threads=8, args=["--maxlen", "9000"], timeout=(900, 1800)),
+              Stage("c14", kind="miri", args=["--maxlen", "40"], miri_flags=MIRI_SERIAL, timeout=(900, 1800))],
+)
